@@ -18,7 +18,7 @@ actions Start, BlockEpoch, UserForceClose, CloseEvent(L|R|P|breach|coop) and one
   (f) negative controls: a corrupted fail-back count must be rejected; a F3 trace must be rejected in strict mode.
 
 Environment (development / controls): C12_OVERLAY='contractcourt/channel_arbitrator.go=/path/patched.go' (or VERIF_MUTATION),
-C12_F3C_REPAIRED=1 (validate against the model with the deterministic merge - use with the F3c candidate repair),
+C12_F3C_REPAIRED=0 (model and validation with the order-dependent merge of the code before fix 1eb7c38; default 1),
 C12_F3AB_REPAIRED=1 (validate against the model with the candidate policy EarlyOK - use with mutations/C12/repairs/F3ab_*.diff),
 C12_KNOWN_GLOBS='F3a:*,F3b:*' (treat these keys as listed in known_findings.json, development only),
 C12_MC_WORKERS (default 4), C12_SKIP_MC2=1 (skip the 2/3-HTLC model checking), C12_SKIP_MC=1 (skip all model checking; control runs).
@@ -39,7 +39,8 @@ LEVEL = "model_checking"
 PKG = "./contractcourt/"
 HARNESS = ["contractcourt/c12_test.go"]
 MC_WORKERS = int(os.environ.get("C12_MC_WORKERS", "4"))
-REPAIRED = os.environ.get("C12_F3C_REPAIRED", "") not in ("", "0")
+# the tree merges the two remote HTLC sets deterministically since fix 1eb7c38 (F3c); C12_F3C_REPAIRED=0 = the older code
+REPAIRED = os.environ.get("C12_F3C_REPAIRED", "1") not in ("", "0")
 REPAIRED_AB = os.environ.get("C12_F3AB_REPAIRED", "") not in ("", "0")
 
 WHAT = {
@@ -86,7 +87,8 @@ def parse_keys(out, tag):
 
 def model_checking(ck):
     thorough = ck.tier == "thorough"
-    base = {"WitClass": '"none"'}
+    merge = "TRUE" if REPAIRED else "FALSE"
+    base = {"WitClass": '"none"', "F3cRepaired": merge}
     r = ck.model_check(SPEC, "ChainActionsMC", "ChainActionsMC.cfg", "1 HTLC: every cell x every path",
                        constants=dict(base, DeltaPairs="Deltas2" if thorough else "Deltas46"),
                        name="mc_nh1", workers=MC_WORKERS, timeout=1800)
@@ -97,8 +99,12 @@ def model_checking(ck):
     # one witness per class: TLC's counterexample is a cell + path of that class
     wit = {}
     for cls in ("F3a", "F3b", "F3c", "F3d"):
-        w = ck.model_check(SPEC, "ChainActionsMC", "ChainActionsWit.cfg", "witness " + cls, must_hold=False,
-                           constants={"WitClass": '"%s"' % cls}, name="wit_" + cls, workers=2, timeout=900)
+        # F3c is a class of the order-dependent merge (the code before fix 1eb7c38): its witness documents what the fix removed
+        w = ck.model_check(SPEC, "ChainActionsMC", "ChainActionsWit.cfg",
+                           "witness " + cls + (" (order-dependent merge, before the fix)" if cls == "F3c" else ""),
+                           must_hold=False,
+                           constants={"WitClass": '"%s"' % cls, "F3cRepaired": "FALSE" if cls == "F3c" else merge},
+                           name="wit_" + cls, workers=2, timeout=900)
         if w.violation != "invariant WitnessInv":
             raise Inconclusive("class %s is not reachable in the model (vacuous class): %s" % (cls, w.violation))
         st = core.last_state(w.cex or "")
@@ -227,6 +233,42 @@ def gen_random(rng, num):
     return res
 
 
+def assign_idx(s, rng):
+    """HtlcIndex per HTLC: offered and received HTLCs are numbered by independent counters. Mostly as in a real channel
+    (both counters from 0, so the first offered and the first received HTLC share index 0), sometimes arbitrary distinct
+    numbers per direction (shared or not)."""
+    for d in ("out", "in"):
+        hs = [h for h in s["htlc"] if h["dir"] == d]
+        if rng is None or rng.random() < 0.7:
+            ids = list(range(len(hs)))
+            if rng is not None:
+                rng.shuffle(ids)
+        else:
+            ids = rng.sample(range(0, max(4, len(hs) + 1)), len(hs))
+        for h, i in zip(hs, ids):
+            h["idx"] = i
+    for h in s["htlc"]:
+        h.setdefault("idx", 0)
+    return s
+
+
+def gen_mixed(ck):
+    """Every (cell, path) with one offered and one received HTLC far from expiry (BFS): the cells in which the two
+    directions' index spaces meet."""
+    c = {"NH": 2, "Rels": "RelsFar", "Fwds": "FwdYes", "DataLoss": "DLNo", "MaxBlocks": 0}
+    r = ck.tlc(SPEC, "ChainActionsGen", "ChainActionsGen.cfg", name="gen_mixed", mode="mc", workers=2, timeout=1800,
+               constants=c)
+    if r.error or r.violation:
+        raise Inconclusive("ChainActionsGen (mixed directions) failed: %s\n%s" % (r.error or r.violation, r.out[-2000:]))
+    s = [x for x in parse_scheds(r.out) if sorted(h["dir"] for h in x["htlc"]) == ["in", "out"]]
+    core.log("  [gen] one offered + one received HTLC, exhaustive: %d (cell, path) schedules, %.0fs" % (len(s), r.wall))
+    ck.cov["model_runs"].append(dict(what="generate offered+received exhaustive", schedules=len(s), states=r.distinct,
+                                     wall_s=round(r.wall, 1)))
+    if not s:
+        raise Inconclusive("no mixed-direction schedules generated")
+    return s
+
+
 def pad(s, nh):
     s = copy.deepcopy(s)
     empty = {"dir": "none", "fwd": 0, "pre": 0, "rel": -50, "onL": "absent", "onR": "absent", "onP": "absent"}
@@ -290,18 +332,18 @@ def validate_batches(ck, trace, nh, name, quirks, rejected):
             p = os.path.join(ck.out, "batch_%s_%d_%d.ndjson" % (name, i, attempt))
             core.write_ndjson(p, cur)
             c = tconsts(nh)
-            if STATE.get("merge_repaired"):
-                c["F3cRepaired"] = "TRUE"
+            if "merge" in STATE:
+                c["F3cRepaired"] = STATE["merge"]
             v = ck.validate(SPEC, "ChainActionsTrace", "ChainActionsTrace.cfg", p, constants=c,
                             name="val_%s_%d_%d" % (name, i, attempt), timeout=3000)
-            if not v["ok"] and c["F3cRepaired"] == "FALSE":
-                # a tree in which the merge has been made deterministic (F3c repaired) is a behaviour of the model
-                # with F3cRepaired = TRUE only (two HTLCs with opposite dust status need both views at once)
-                c["F3cRepaired"] = "TRUE"
+            if not v["ok"] and "merge" not in STATE and "C12_F3C_REPAIRED" not in os.environ:
+                # a tree with the other merge (order-dependent before fix 1eb7c38, deterministic after) is a behaviour of
+                # the model with the other value of F3cRepaired only; adopt it if that explains the rejection
+                c["F3cRepaired"] = "FALSE" if c["F3cRepaired"] == "TRUE" else "TRUE"
                 v2 = ck.validate(SPEC, "ChainActionsTrace", "ChainActionsTrace.cfg", p, constants=c,
-                                 name="val_%s_%d_%d_merge_repaired" % (name, i, attempt), timeout=3000)
+                                 name="val_%s_%d_%d_other_merge" % (name, i, attempt), timeout=3000)
                 if v2["ok"]:
-                    STATE["merge_repaired"] = True
+                    STATE["merge"] = c["F3cRepaired"]
                     v = v2
             res.append((cur, v))
             os.remove(p)
@@ -413,19 +455,25 @@ def run(ck):
     g2 = {"Rels": "RelsFull", "Fwds": "FwdBoth", "DataLoss": "DLBoth", "MaxBlocks": 2, "DeltaPairs": "Deltas2"}
     s2 = gen_simulate(ck, 2, 6000 if thorough else 700, g2, "gen_nh2")
     s3 = gen_random(rng, 3000 if thorough else 400)
+    allm = gen_mixed(ck)
+    sm = allm if thorough else rng.sample(allm, min(2500, len(allm)))
     nh = 5
     seen, scheds = set(), []
-    for s in s1 + s2 + s3:
+    for s in s1 + sm + s2 + s3:
         k = sched_key(s)
         if k in seen:
             continue
         seen.add(k)
-        s = copy.deepcopy(s)
+        s = assign_idx(copy.deepcopy(s), rng)
         s["id"] = len(scheds) + 1
         scheds.append(s)
     ck.cov["distinct_nontrivial"] = len(scheds)
-    core.log("  schedules: %d with one HTLC (%s of %d), %d with two (TLC -simulate), %d with 3-5 (seeded random driver); %d distinct" % (
-        len(s1), "all" if thorough else "stratified sample", len(all1), len(s2), len(s3), len(scheds)))
+    ck.cov["schedules_with_shared_htlc_index"] = sum(
+        1 for s in scheds if {h["idx"] for h in s["htlc"] if h["dir"] == "out"} & {h["idx"] for h in s["htlc"] if h["dir"] == "in"})
+    core.log("  schedules: %d with one HTLC (%s of %d), %d with one offered + one received (%s of %d), %d with two "
+             "(TLC -simulate), %d with 3-5 (seeded random driver); %d distinct, %d with an index shared across directions" % (
+                 len(s1), "all" if thorough else "stratified sample", len(all1), len(sm), "all" if thorough else "sample",
+                 len(allm), len(s2), len(s3), len(scheds), ck.cov["schedules_with_shared_htlc_index"]))
 
     # ---- execute on the real arbitrator, validate
     trace = execute(ck, scheds, "all", reps)
@@ -452,9 +500,10 @@ def run(ck):
                      files=files, text=v["cex"])
 
     fams = report_quirks(ck, quirks, predicted, None)
-    if STATE.get("merge_repaired"):
-        ck.notes.append("the recorded runs are behaviours of the model only with F3cRepaired = TRUE: this tree merges the "
-                        "two remote HTLC sets deterministically (F3c repaired)")
+    if "merge" in STATE:
+        ck.notes.append("the recorded runs are behaviours of the model only with F3cRepaired = %s (not the configured value): "
+                        "the merge of the two remote HTLC sets in this tree is %s" % (
+                            STATE["merge"], "deterministic" if STATE["merge"] == "TRUE" else "order-dependent (F3c)"))
 
     # ---- model prediction vs observation (one-HTLC classes are enumerated exhaustively by the model)
     obs1 = set()
@@ -463,9 +512,9 @@ def run(ck):
         if sum(1 for h in cur[a]["htlc"] if h["dir"] != "none") == 1:
             obs1.add(key)
     unpredicted = sorted(k for k in obs1 if predicted is not None and k not in predicted)
-    if unpredicted and not REPAIRED and not REPAIRED_AB:
+    if unpredicted and not REPAIRED_AB and "merge" not in STATE:
         raise Inconclusive("deviation classes observed on the real code that the model does not predict: %s" % unpredicted)
-    if thorough and predicted is not None and not rejected and not REPAIRED and not REPAIRED_AB \
+    if thorough and predicted is not None and not rejected and not REPAIRED_AB and "merge" not in STATE \
             and not os.environ.get("VERIF_MUTATION") and not overlay():
         det = [k for k in predicted if k.split(":")[0] in ("F3a", "F3b", "F3d")]
         missing = sorted(k for k in det if k not in obs1)
@@ -506,6 +555,9 @@ def replay(ck, reps):
     scheds = core.read_ndjson(sp)
     nh = max(len(s["htlc"]) for s in scheds)
     scheds = [pad(s, nh) for s in scheds]
+    for s in scheds:
+        if any("idx" not in h for h in s["htlc"]):
+            assign_idx(s, None)
     trace = execute(ck, scheds, "replay", max(reps, 8))
     quirks, rejected = {}, []
     recs, ntraces = validate_batches(ck, trace, nh, "replay", quirks, rejected)
